@@ -18,6 +18,7 @@ import (
 	"errors"
 	"fmt"
 	"io"
+	"net"
 	"net/http"
 	"net/http/httptest"
 	"os"
@@ -76,6 +77,7 @@ type simCfg struct {
 	} `json:"ids"`
 	Plugins []config.PluginConfig `json:"plugins"`
 	Token   string                `json:"token"`
+	WsPool  bool                  `json:"wspool"`
 }
 
 type step struct {
@@ -241,6 +243,11 @@ func (p *probeRT) RoundTrip(r *http.Request) (*http.Response, error) {
 	}
 	emit(map[string]any{"ev": "probe", "b": name, "r": res, "stopped": *p.stop})
 	switch res {
+	case "hang":
+		// the backend never answers: the probe ends when its context does
+		<-r.Context().Done()
+		emit(map[string]any{"ev": "probe_end", "b": name, "stopped": *p.stop})
+		return nil, r.Context().Err()
 	case "ok":
 		return &http.Response{StatusCode: 200, Status: "200 OK", Proto: "HTTP/1.1", ProtoMajor: 1, ProtoMinor: 1,
 			Header: http.Header{}, Body: io.NopCloser(strings.NewReader("ok")), Request: r}, nil
@@ -267,7 +274,19 @@ func hdrName(configured, def string) string {
 
 func hostOf(name string) string { return name + ".backend.test:80" }
 
+type fakeConn struct{ closed bool }
+
+func (c *fakeConn) Read(b []byte) (int, error)         { return 0, errors.New("fake") }
+func (c *fakeConn) Write(b []byte) (int, error)        { return len(b), nil }
+func (c *fakeConn) Close() error                       { c.closed = true; return nil }
+func (c *fakeConn) LocalAddr() net.Addr                { return &net.TCPAddr{} }
+func (c *fakeConn) RemoteAddr() net.Addr               { return &net.TCPAddr{} }
+func (c *fakeConn) SetDeadline(t time.Time) error      { return nil }
+func (c *fakeConn) SetReadDeadline(t time.Time) error  { return nil }
+func (c *fakeConn) SetWriteDeadline(t time.Time) error { return nil }
+
 type sim struct {
+	pooled  []*fakeConn
 	sc      script
 	lb      *loadbalancer.LoadBalancer
 	cfg     *config.Config
@@ -311,6 +330,9 @@ func (s *sim) buildConfig() *config.Config {
 		c.Plugins = config.PluginsConfig{Enabled: true, Chain: sc.Plugins}
 	}
 	c.AdminAPI = config.AdminAPIConfig{Enabled: true, Port: 9091, AuthToken: sc.Token}
+	if sc.WsPool {
+		c.LoadBalancer.WebSocketPool = config.WebSocketPoolConfig{Enabled: true, MaxIdle: 4, MaxActive: 10, IdleTimeoutSeconds: 300}
+	}
 	return c
 }
 
@@ -652,16 +674,47 @@ func (s *sim) run() {
 				tids = append(tids, p.t...)
 			}
 			emit(map[string]any{"ev": "burst", "n": st.N, "rids": rids, "tids": tids})
-		case "stop":
-			fin := make(chan struct{})
-			go func() { s.lb.Stop(); close(fin) }()
-			select {
-			case <-fin:
+		case "stop", "stop2":
+			// stop2: two concurrent Stop calls
+			n := 1
+			if st.A == "stop2" {
+				n = 2
+			}
+			fin := make(chan struct{}, n)
+			for i := 0; i < n; i++ {
+				go func() { s.lb.Stop(); fin <- struct{}{} }()
+			}
+			okAll := true
+			for i := 0; i < n; i++ {
+				select {
+				case <-fin:
+				case <-time.After(120 * time.Second):
+					okAll = false
+				}
+			}
+			if okAll {
 				s.stopped = true
-				emit(map[string]any{"ev": "stopped"})
-			case <-time.After(120 * time.Second):
+				emit(map[string]any{"ev": "stopped", "n": n})
+			} else {
 				emit(map[string]any{"ev": "stuck", "id": -1, "at": "stop"})
 			}
+		case "poolput":
+			if p := s.lb.VerifPool(); p != nil {
+				c := &fakeConn{}
+				s.pooled = append(s.pooled, c)
+				kept := p.Put(st.B, c)
+				emit(map[string]any{"ev": "poolput", "b": st.B, "kept": kept})
+			} else {
+				emit(map[string]any{"ev": "drift", "why": "no websocket pool"})
+			}
+		case "poolcheck":
+			open := 0
+			for _, c := range s.pooled {
+				if !c.closed {
+					open++
+				}
+			}
+			emit(map[string]any{"ev": "poolcheck", "open": open, "n": len(s.pooled)})
 		}
 	}
 	// release anything still held so goroutines end, then stop background activity
